@@ -89,6 +89,9 @@ func newChanRec(mode string) *chanRec {
 		c.ch = make(chan events.Event)
 		go func() {
 			for e := range c.ch {
+				if e.EventType == sentinelEvent {
+					continue
+				}
 				c.mu.Lock()
 				c.evs = append(c.evs, e)
 				c.mu.Unlock()
@@ -121,6 +124,26 @@ func (c *chanRec) take() (out []events.Event, closedSeen bool) {
 	c.evs = nil
 	c.mu.Unlock()
 	return out, false
+}
+
+const sentinelEvent = events.EventType(-1)
+
+// syncProbe (unbuffered mode) sends a sentinel through the channel.  The
+// consumer is sequential, so once the send has completed every event the
+// library sent before has been recorded; and the send panics exactly when the
+// library has already closed the channel.  Deterministic: no timing involved.
+func (c *chanRec) syncProbe() (closed bool) {
+	if c.closed {
+		return true
+	}
+	defer func() {
+		if r := recover(); r != nil {
+			closed = true
+			c.closed = true
+		}
+	}()
+	c.ch <- events.Event{EventType: sentinelEvent}
+	return false
 }
 
 // probeClosed reports whether the library has closed the channel.  It is
@@ -277,22 +300,16 @@ func runProto(c protoCase) protoObs {
 					rec.closed = true
 				}
 				co.Closed = closedSeen
-			} else if last || o.kind != "handle" {
-				co.Closed = rec.probeClosed()
-				<-rec.done
-				more, _ := rec.take()
-				es = append(es, more...)
 			} else {
-				// unbuffered, channel must stay usable: give the consumer a moment, do not probe
-				time.Sleep(2 * time.Millisecond)
+				co.Closed = rec.syncProbe()
+				if co.Closed {
+					<-rec.done
+				} else if last || o.kind != "handle" {
+					rec.probeClosed() // we close it ourselves to release the consumer
+					<-rec.done
+				}
 				more, _ := rec.take()
 				es = append(es, more...)
-				select {
-				case <-rec.done:
-					co.Closed = true
-					rec.closed = true
-				default:
-				}
 			}
 			co.Events, co.TimesOK = evInts(es)
 			all = append(all, es...)
